@@ -12,10 +12,10 @@ cd $WT && git checkout -q -- . && git clean -fdq -e SEEDED
 cp $MD/demo_test.go $WT/$PKG/zz_seeded_demo_test.go
 TAGS=""
 if ! go vet -vet=off ./$PKG >/dev/null 2>&1; then :; fi
-clean=$(go test -vet=off -count=1 ./$PKG 2>&1 | tail -1)
-case "$clean" in ok*) ;; *) TAGS="-tags verif"; clean=$(go test $TAGS -vet=off -count=1 ./$PKG 2>&1 | tail -1);; esac
+clean=$(go test -vet=off -count=1 -run TestSeeded ./$PKG 2>&1 | tail -1)
+case "$clean" in ok*) ;; *) TAGS="-tags verif"; clean=$(go test $TAGS -vet=off -count=1 -run TestSeeded ./$PKG 2>&1 | tail -1);; esac
 git apply $MD/patch.diff || { echo "PATCH DOES NOT APPLY"; exit 3; }
-mut=$(go test $TAGS -vet=off -count=1 ./$PKG 2>&1 | tail -1)
+mut=$(go test $TAGS -vet=off -count=1 -run TestSeeded ./$PKG 2>&1 | tail -1)
 rm -f $WT/$PKG/zz_seeded_demo_test.go
 suite=$(go test -vet=off -count=1 ./pkg/buffer ./pkg/tmutex ./pkg/waiter ./protocol/header ./protocol/network/fragmentation ./protocol/ports ./protocol/transport/tcpconntrack 2>&1 | grep -c "^ok")
 build=$(go build -tags verif ./... 2>&1 | grep -v "^#" | grep -vc "c_net\|cmd/" )
